@@ -379,8 +379,10 @@ Section Interpret.
     destruct (mb_kind m) eqn:K; try (eexists; reflexivity).
     - rewrite Henv. eexists; reflexivity.
     - destruct (model_first_limit_ok E l m Hu Hm K) as [lim ->].
-      destruct (data_of E m); try (eexists; reflexivity).
-      destruct (match lim with Some _ => _ | None => false end); eexists; reflexivity.
+      destruct (data_of E m) as [| |d0|sh d0]; try (eexists; reflexivity).
+      + destruct (match lim with Some _ => _ | None => false end); eexists; reflexivity.
+      + destruct (negb (shape_ok sh)); [eexists; reflexivity|].
+        destruct (match lim with Some _ => _ | None => false end); eexists; reflexivity.
   Qed.
 
   Theorem interpret_never_crashes : forall E l,
@@ -443,9 +445,13 @@ Definition accepted_shape (E : env) (l : loaded) (sc : scenario) : Prop :=
   (s_mkind sc = MKCatchment ->
      exists d0, s_data sc = DataOk d0 /\
                 match s_limit sc with Some _ => limit_binding (with_limit d0 (s_limit sc)) = true | None => True end) /\
-  e_out_is_file E (s_out_path sc) = false /\
+  e_out_is_file E (l_output_path l) = false /\
   (s_otype sc = "EXCEL" -> e_excel E = true) /\
-  (s_profile sc <> "" -> e_profile_dir_ok E (s_profile sc) = true).
+  (s_profile sc <> "" -> e_profile_dir_ok E (s_profile sc) = true) /\
+  (* C19c-2, C19c-3: the profile file is neither in the way of the output directory nor one of the model's data files *)
+  s_out_path sc = effective_output_path (l_output_path l) /\
+  profile_blocks_output (e_cwd E) (s_profile sc) (l_output_path l) = false /\
+  profile_overwrites_input E l (s_mkind sc) (s_model_params sc) = false.
 
 Lemma model_part_usable F T E l mp m : interpret_model_part F T E l = Ok mp -> mp_model mp = Some m ->
   match mb_kind m with
@@ -462,12 +468,29 @@ Proof.
   - destruct (e_round_ok E (mb_params m0)); [|discriminate].
     intros H Hm. inversion H; subst. cbn in Hm. inversion Hm; subst. now rewrite K.
   - destruct (first_limit limit_keys (mb_params m0)) as [lim|]; [|discriminate].
-    destruct (data_of E m0) as [| |d0]; try (intros H Hm; inversion H; subst; discriminate).
-    destruct lim as [lm|].
-    + destruct (limit_binding (with_limit d0 (Some lm))) eqn:B; cbn [negb];
-        intros H Hm; inversion H; subst; cbn in Hm; [|discriminate].
-      inversion Hm; subst. rewrite K. exists d0. cbn. auto.
-    + intros H Hm. inversion H; subst. cbn in Hm. inversion Hm; subst. rewrite K. exists d0. cbn. auto.
+    destruct (data_of E m0) as [| |d0|sh d0]; try (intros H Hm; inversion H; subst; discriminate).
+    + destruct lim as [lm|].
+      * destruct (limit_binding (with_limit d0 (Some lm))) eqn:B; cbn [negb];
+          intros H Hm; inversion H; subst; cbn in Hm; [|discriminate].
+        inversion Hm; subst. rewrite K. exists d0. cbn. auto.
+      * intros H Hm. inversion H; subst. cbn in Hm. inversion Hm; subst. rewrite K. exists d0. cbn. auto.
+    + destruct (shape_ok sh); cbn [negb]; [|intros H Hm; inversion H; subst; discriminate].
+      destruct lim as [lm|].
+      * destruct (limit_binding (with_limit d0 (Some lm))) eqn:B; cbn [negb];
+          intros H Hm; inversion H; subst; cbn in Hm; [|discriminate].
+        inversion Hm; subst. rewrite K. exists d0. cbn. auto.
+      * intros H Hm. inversion H; subst. cbn in Hm. inversion Hm; subst. rewrite K. exists d0. cbn. auto.
+Qed.
+
+(* a catchment data source given by its tables is only accepted when the tables agree with each other (C19c-4) *)
+Lemma model_part_tables_sound F T E l mp m sh d0 : interpret_model_part F T E l = Ok mp -> mp_model mp = Some m ->
+  (exists m0, interpret_model F T E l = Some m0 /\ mb_kind m0 = MKCatchment /\ data_of E m0 = DataTables sh d0) ->
+  shape_ok sh = true.
+Proof.
+  intros H Hm (m0 & I & K & D). unfold interpret_model_part in H. rewrite I in H.
+  destruct (mb_errors m0); [|inversion H; subst; discriminate].
+  rewrite K in H. destruct (first_limit limit_keys (mb_params m0)) as [lim|]; [|discriminate].
+  rewrite D in H. destruct (shape_ok sh); [reflexivity|]. cbn [negb] in H. inversion H; subst. discriminate.
 Qed.
 
 Lemma interpret_done F T E l sc : interpret F T E l = Done sc -> accepted_shape E l sc.
@@ -478,11 +501,12 @@ Proof.
   destruct (ab_iterations (interpret_annealer T E l f)) as [n|]; [|discriminate].
   destruct (ab_decision_var (interpret_annealer T E l f)) as [dv|]; [|discriminate].
   destruct (mp_errs mp ++ ab_errors (interpret_annealer T E l f)
-            ++ decision_variable_errors mp (interpret_annealer T E l f) dv ++ scenario_errors F E l) eqn:ES; [|discriminate].
+            ++ decision_variable_errors mp (interpret_annealer T E l f) dv ++ scenario_errors F E l ++ input_errors E l mp) eqn:ES; [|discriminate].
   destruct (mp_model mp) as [m|] eqn:MM; [|discriminate].
   intro H. inversion H; subst. clear H.
   apply app_eq_nil in ES as [_ ES]. apply app_eq_nil in ES as [EA ES]. apply app_eq_nil in ES as [EDV ESC].
-  unfold accepted_shape. cbn [s_runs s_modulo s_family s_mkind s_decision_var s_data s_limit s_out_path s_otype s_profile].
+  apply app_eq_nil in ESC as [ESC EIN].
+  unfold accepted_shape. cbn [s_runs s_modulo s_family s_mkind s_decision_var s_data s_limit s_out_path s_otype s_profile s_model_params].
   split; [reflexivity|]. split; [reflexivity|].
   split.
   { intro SO. unfold decision_variable_errors in EDV. rewrite MM, EA in EDV.
@@ -492,12 +516,18 @@ Proof.
   { intro K. pose proof (model_part_usable F T E l mp m MP MM) as U. rewrite K in U. exact U. }
   unfold scenario_errors in ESC.
   apply app_eq_nil in ESC as [_ ESC]. apply app_eq_nil in ESC as [_ ESC]. apply app_eq_nil in ESC as [E1 ESC].
-  apply app_eq_nil in ESC as [E2 E3].
+  apply app_eq_nil in ESC as [E2 ESC]. apply app_eq_nil in ESC as [E3 E4].
   split; [destruct (e_out_is_file E (l_output_path l)); [discriminate|reflexivity]|].
   split.
-  - intro X. rewrite X in E2. cbn in E2. destruct (e_excel E); [reflexivity|discriminate].
-  - intro X. destruct (l_cpu_profile l =? "") eqn:Q; [apply String.eqb_eq in Q; contradiction|].
-    cbn in E3. destruct (e_profile_dir_ok E (l_cpu_profile l)); [reflexivity|discriminate].
+  { intro X. rewrite X in E2. cbn in E2. destruct (e_excel E); [reflexivity|discriminate]. }
+  split.
+  { intro X. destruct (l_cpu_profile l =? "") eqn:Q; [apply String.eqb_eq in Q; contradiction|].
+    cbn in E3. destruct (e_profile_dir_ok E (l_cpu_profile l)); [reflexivity|discriminate]. }
+  split; [reflexivity|].
+  split.
+  { destruct (profile_blocks_output (e_cwd E) (l_cpu_profile l) (l_output_path l)); [discriminate|reflexivity]. }
+  unfold input_errors in EIN. rewrite MM in EIN.
+  destruct (profile_overwrites_input E l (mb_kind m) (mb_params m)); [discriminate|reflexivity].
 Qed.
 
 Lemma offers_exists k name : offers k name = true -> variable_exists k name = true.
@@ -536,35 +566,63 @@ Lemma run_tail_completes E sc r T0 a :
   e_out_usable E (s_out_path sc) = true ->
   (s_otype sc = "EXCEL" -> e_excel E = true) ->
   no_nl (s_name sc) = true ->
-  exists f, run_tail E sc r None T0 a = R1Files f.
+  match s_mkind sc with MKDumb => dumb_round_ok (s_model_params sc) | _ => true end = true ->
+  e_file_creatable E (summary_name sc r) = true ->
+  run_tail E sc r None T0 a = R1Files (summary_name sc r).
 Proof.
-  intros Hm Hv Hout Hx Hn. unfold run_tail.
+  intros Hm Hv Hout Hx Hn Hd Hf. unfold run_tail.
   assert (V : single_objective (s_family sc) && negb (variable_exists (s_mkind sc) (s_decision_var sc)) = false).
   { destruct (single_objective (s_family sc)); simpl in *; [now rewrite (offers_exists _ _ (Hv eq_refl))|reflexivity]. }
-  rewrite V. rewrite !(observers_fine sc _ _ Hm). cbn [negb].
+  rewrite V.
+  replace (match s_mkind sc with MKDumb => negb (dumb_round_ok (s_model_params sc)) | _ => false end) with false
+    by (destruct (s_mkind sc); try reflexivity; now rewrite Hd).
+  rewrite !(observers_fine sc _ _ Hm). cbn [negb].
   rewrite elapsed_finishes by (intros j _; rewrite !(observers_fine sc _ _ Hm); reflexivity).
   rewrite Hout. cbn [negb].
-  unfold encoder_of. destruct (s_otype sc =? "JSON").
-  - rewrite (json_name_ok _ _ _ Hn). eexists; reflexivity.
-  - destruct ((s_otype sc =? "CSV") || (s_otype sc =? "")); [eexists; reflexivity|].
-    destruct (s_otype sc =? "EXCEL") eqn:X; [|eexists; reflexivity].
-    apply String.eqb_eq in X. rewrite (Hx X). eexists; reflexivity.
+  unfold save_file. rewrite Hf. unfold summary_name.
+  destruct (encoder_of (s_otype sc)) eqn:EN; try reflexivity.
+  - unfold summary_key. now rewrite (json_name_ok _ _ _ Hn).
+  - assert (X : s_otype sc = "EXCEL").
+    { unfold encoder_of in EN. destruct (s_otype sc =? "JSON"); [discriminate|].
+      destruct ((s_otype sc =? "CSV") || (s_otype sc =? "")); [discriminate|].
+      destruct (s_otype sc =? "EXCEL") eqn:Q; [now apply String.eqb_eq in Q|discriminate]. }
+    now rewrite (Hx X).
 Qed.
 
 Lemma Forall_firstn {A} (P : A -> Prop) (l : list A) k : Forall P l -> Forall P (firstn k l).
 Proof. revert l. induction k as [|k IH]; intros l H; [constructor|]. destruct l; [constructor|]. inversion H; subst. constructor; auto. Qed.
 
+Definition files_creatable (E : env) (sc : scenario) (r : nat) : Prop := e_file_creatable E (summary_name sc r) = true.
+
+Lemma preconditions_parts E sc : run_preconditions E sc = true ->
+  match s_mkind sc, s_data sc with
+  | MKCatchment, DataOk d0 => wf_dataset d0 && limit_attainable d0 (s_limit sc)
+  | _, _ => true
+  end = true /\
+  e_out_usable E (s_out_path sc) = true /\
+  (forall r, In r (seq 1 (Z.to_nat (s_runs sc))) -> files_creatable E sc r) /\
+  match s_mkind sc with MKDumb => dumb_round_ok (s_model_params sc) | _ => true end = true /\
+  ((s_profile sc =? "") || e_profile_ok E (s_profile sc)) = true /\
+  no_nl (s_name sc) = true.
+Proof.
+  intro Hp. unfold run_preconditions in Hp.
+  repeat match type of Hp with (_ && _ = true) => let H := fresh "P" in apply andb_true_iff in Hp as [Hp H] end.
+  repeat split; try assumption.
+  intros r Hr. unfold files_creatable. rewrite forallb_forall in P2. now apply P2.
+Qed.
+
 Lemma run_one_completes E l sc r ch T0 a :
   (1 <= s_modulo sc)%Z -> accepted_shape E l sc -> run_preconditions E sc = true ->
   match dataset_of sc with Some d => choice_ok d ch | None => True end ->
-  exists f, run_one E sc r ch T0 a = R1Files f.
+  files_creatable E sc r ->
+  run_one E sc r ch T0 a = R1Files (summary_name sc r).
 Proof.
-  intros Hm (_ & _ & Hv & Hd & _ & Hx & _) Hp Hc. unfold run_preconditions in Hp.
-  repeat match type of Hp with (_ && _ = true) => let H := fresh "P" in apply andb_true_iff in Hp as [Hp H] end.
+  intros Hm (_ & _ & Hv & Hd & _ & Hx & _) Hp Hc Hf.
+  destruct (preconditions_parts E sc Hp) as (Hdata & Hout & _ & Hdumb & _ & Hn).
   unfold run_one, dataset_of in *.
   destruct (s_mkind sc) eqn:K; try (apply run_tail_completes; rewrite ?K; assumption).
   destruct (Hd eq_refl) as (d0 & D & B). rewrite D in *.
-  apply andb_true_iff in Hp as [Hwf0 Hatt].
+  apply andb_true_iff in Hdata as [Hwf0 Hatt].
   set (d := with_limit d0 (s_limit sc)) in *.
   assert (Hwf : wf_dataset d = true) by (unfold d; now rewrite wf_with_limit).
   assert (HL : limit_fine d).
@@ -577,12 +635,57 @@ Proof.
 Qed.
 
 Lemma run_all_completes E sc choices T0 a : forall rs,
-  (forall r, exists f, run_one E sc r (choices r) T0 a = R1Files f) ->
-  exists fs, run_all E sc choices T0 a rs = Completed fs /\ List.length fs = List.length rs.
+  (forall r, In r rs -> run_one E sc r (choices r) T0 a = R1Files (summary_name sc r)) ->
+  run_all E sc choices T0 a rs = Completed (map (summary_name sc) rs).
 Proof.
-  induction rs as [|r rs IH]; intro H; [exists []; split; reflexivity|].
-  cbn [run_all]. destruct (H r) as [f ->]. destruct (IH H) as (fs & -> & L).
-  exists (f :: fs). split; [reflexivity|simpl; now rewrite L].
+  induction rs as [|r rs IH]; intro H; [reflexivity|].
+  cbn [run_all map]. rewrite (H r) by (left; reflexivity). rewrite IH by (intros; apply H; now right). reflexivity.
+Qed.
+
+Lemma app_inv_tail_s : forall a b c : string, (a ++ c = b ++ c)%string -> a = b.
+Proof.
+  induction a as [|x a IH]; intros [|y b] c H; cbn in H.
+  - reflexivity.
+  - apply (f_equal String.length) in H. cbn in H. rewrite length_app_s in H. lia.
+  - apply (f_equal String.length) in H. cbn in H. rewrite length_app_s in H. lia.
+  - injection H as -> H. now rewrite (IH b c H).
+Qed.
+
+(* ---- one result per run, DISTINCT per run: with several runs two runs never share a summary file, whatever the scenario name ---- *)
+Lemma summary_name_inj sc r1 r2 : writes_files sc = true -> (1 < Z.to_nat (s_runs sc))%nat ->
+  summary_name sc r1 = summary_name sc r2 -> r1 = r2.
+Proof.
+  unfold writes_files, summary_name, summary_key. intros W HR H.
+  assert (ER : (1 < effective_runs (Z.to_nat (s_runs sc)))%nat).
+  { unfold effective_runs. destruct (Z.to_nat (s_runs sc) =? 0)%nat eqn:Q; [apply Nat.eqb_eq in Q; lia|exact HR]. }
+  destruct (encoder_of (s_otype sc)); try discriminate.
+  - apply (summary_stem_inj (s_name sc) (Z.to_nat (s_runs sc))); [exact ER|].
+    apply (f_equal (fun x => String.length x)) in H as HL.
+    revert H. generalize (file_stem (as_is_id (run_id (s_name sc) (Z.to_nat (s_runs sc)) r1))) as x.
+    generalize (file_stem (as_is_id (run_id (s_name sc) (Z.to_nat (s_runs sc)) r2))) as y. intros y x H.
+    now apply app_inv_tail_s in H.
+  - apply (summary_stem_inj (s_name sc) (Z.to_nat (s_runs sc))); [exact ER|].
+    revert H. generalize (file_stem (as_is_id (run_id (s_name sc) (Z.to_nat (s_runs sc)) r1))) as x.
+    generalize (file_stem (as_is_id (run_id (s_name sc) (Z.to_nat (s_runs sc)) r2))) as y. intros y x H.
+    now apply app_inv_tail_s in H.
+Qed.
+
+Lemma NoDup_map_in {A B} (f : A -> B) (l : list A) :
+  (forall x y, In x l -> In y l -> f x = f y -> x = y) -> NoDup l -> NoDup (map f l).
+Proof.
+  intros Hinj Hnd. induction Hnd as [|x l Hx Hnd IH]; [constructor|].
+  cbn [map]. constructor.
+  - intro Hin. apply in_map_iff in Hin as (y & E & Hy).
+    assert (y = x) by (apply Hinj; [now right|now left|exact E]). subst y. contradiction.
+  - apply IH. intros a b Ha Hb. apply Hinj; now right.
+Qed.
+
+Lemma summaries_distinct sc : writes_files sc = true -> NoDup (map (summary_name sc) (seq 1 (Z.to_nat (s_runs sc)))).
+Proof.
+  intro W. destruct (Nat.le_gt_cases (Z.to_nat (s_runs sc)) 1) as [Hle|Hgt].
+  - destruct (Z.to_nat (s_runs sc)) as [|[|n]]; [constructor|cbn; constructor; [intros []|constructor]|lia].
+  - apply NoDup_map_in; [|apply seq_NoDup].
+    intros x y _ _ H. now apply (summary_name_inj sc).
 Qed.
 
 Theorem accepted_runs : forall F T, facts_ok F = true -> tables_ok T = true ->
@@ -590,19 +693,21 @@ Theorem accepted_runs : forall F T, facts_ok F = true -> tables_ok T = true ->
   load F c = Done l -> interpret F T E l = Done sc ->
   run_preconditions E sc = true -> choices_ok sc choices ->
   exists summaries, run_model E sc choices T0 a = Completed summaries /\ List.length summaries = Z.to_nat (l_run_number l)
-                    /\ (1 <= l_run_number l)%Z.
+                    /\ (1 <= l_run_number l)%Z
+                    /\ summaries = map (summary_name sc) (seq 1 (Z.to_nat (l_run_number l)))
+                    /\ (writes_files sc = true -> NoDup summaries).
 Proof.
   intros F T HF HT E c l sc choices T0 a HL HI HP HC.
   destruct (accepted_counts F c l HF HL) as [HR HM].
   pose proof (interpret_done F T E l sc HI) as SH. destruct SH as (ER & EM & SH').
-  pose proof HP as HP'. unfold run_preconditions in HP'.
-  repeat match type of HP' with (_ && _ = true) => let H := fresh "P" in apply andb_true_iff in HP' as [HP' H] end.
+  destruct (preconditions_parts E sc HP) as (_ & _ & Hfiles & _ & Hprof & _).
   unfold run_model.
   replace (negb (s_profile sc =? "") && negb (e_profile_ok E (s_profile sc))) with false
-    by (destruct (s_profile sc =? ""); simpl in *; [reflexivity|now rewrite P0]).
+    by (destruct (s_profile sc =? ""); simpl in *; [reflexivity|now rewrite Hprof]).
   replace (two63 <=? s_runs sc)%Z with false by (symmetry; apply Z.leb_gt; rewrite ER; lia).
-  destruct (run_all_completes E sc choices T0 a (seq 1 (Z.to_nat (s_runs sc)))) as (fs & -> & Len).
-  - intro r. apply (run_one_completes E l); [rewrite EM; exact HM|exact (conj ER (conj EM SH'))|exact HP|].
+  rewrite (run_all_completes E sc choices T0 a (seq 1 (Z.to_nat (s_runs sc)))).
+  - exists (map (summary_name sc) (seq 1 (Z.to_nat (s_runs sc)))). rewrite map_length, seq_length, <- ER.
+    repeat split; try reflexivity; [lia|]. intro W. now apply summaries_distinct.
+  - intros r Hr. apply (run_one_completes E l); [rewrite EM; exact HM|exact (conj ER (conj EM SH'))|exact HP| |now apply Hfiles].
     unfold choices_ok in HC. destruct (dataset_of sc); [apply HC|exact I].
-  - exists fs. rewrite seq_length in Len. rewrite ER in Len. split; [reflexivity|]. split; [exact Len|lia].
 Qed.
